@@ -10,6 +10,8 @@ has ended.
 """
 import threading
 
+import sys
+
 from hypothesis import strategies as st
 
 from vf import lab, probe
@@ -75,6 +77,7 @@ def render(recipe):
             save = ind
             ind = ind + '    '
             call('%s(n - 1)' % name)
+            d['call'] = len(lines) - (2 if f['catches'] else 0)     # the line that makes the nested call
             ind = save
         for c in f['calls']:
             if c <= i or c >= len(recipe['funcs']):
@@ -95,6 +98,11 @@ def render(recipe):
             lines.append('        acc.append("fin")')
         info.append(d)
     return '\n'.join(lines) + '\n', info
+
+
+def as_received(text):
+    # an argument value as it arrives from the service: an equal string, not the constant's own object
+    return ''.join(list(text))
 
 
 class C15(Prop):
@@ -131,7 +139,22 @@ class C15(Prop):
                                     'fire_count': st.sampled_from(['1', '-1', '-1']),
                                     # line tracepoints sit on the first line of the function, or on its last one (the
                                     # return statement: what they opened completes on the same event as the method's)
-                                    'at': st.sampled_from(['work', 'work', 'last'])})
+                                    'at': st.sampled_from(['work', 'work', 'last', 'call'])})
+        # more openings pending on one thread than the interpreter allows frames: every level of a deep recursion holds
+        # several (a span and a capture on the function, a span and a capture on its first line)
+        kinds4 = st.lists(st.sampled_from(['method_span', 'line_span', 'method_capture', 'line_capture']), min_size=4,
+                          max_size=4)
+        many_pending = st.builds(
+            lambda kinds, raises, fin, depth: {
+                'funcs': [{'kind': 'rec', 'reconf': False, 'pause': False, 'raises': raises, 'catches': False,
+                           'finally': fin, 'calls': []}],
+                'tps': [{'func': 0, 'kind': k, 'fire_count': '-1', 'at': 'call'} for k in kinds],
+                'threads': [[0, depth]], 'span_procs': 1, 'reclimit': 'tight'},
+            kinds4, st.sampled_from(['never', 'never', 'leaf']), st.booleans(), st.sampled_from([140, 160]))
+        general = self._general(func, tp)
+        return st.integers(0, 499).flatmap(lambda i: many_pending if i in (123, 257) else general)
+
+    def _general(self, func, tp):
         return fd({
             'funcs': st.lists(func, min_size=1, max_size=4),
             'tps': st.lists(tp, min_size=1, max_size=4),
@@ -165,15 +188,15 @@ class C15(Prop):
                 trig = build_trigger(tid, BASE, -1, dict(base_cfg, span='method', method_name=fi['name'],
                                                          snapshot='no_collect'), [], [])
             elif k == 'line_span':
-                trig = build_trigger(tid, BASE, fi[at_], dict(base_cfg, span='line', snapshot='no_collect'), [], [])
+                trig = build_trigger(tid, BASE, fi.get(at_, fi['work']), dict(base_cfg, span='line', snapshot='no_collect'), [], [])
             elif k == 'method_capture':
-                act = LocationAction(tid, None, dict(base_cfg, **{STAGE: METHOD_CAPTURE, 'watches': []}),
+                act = LocationAction(tid, None, dict(base_cfg, **{STAGE: as_received(METHOD_CAPTURE), 'watches': []}),
                                      LocationAction.ActionType.Snapshot)
                 trig = Trigger(FunctionLocation(BASE, fi['name'], Location.Position.CAPTURE), [act])
             else:
-                act = LocationAction(tid, None, dict(base_cfg, **{STAGE: LINE_CAPTURE, 'watches': []}),
+                act = LocationAction(tid, None, dict(base_cfg, **{STAGE: as_received(LINE_CAPTURE), 'watches': []}),
                                      LocationAction.ActionType.Snapshot)
-                trig = Trigger(LineLocation(BASE, fi[at_], Location.Position.CAPTURE), [act])
+                trig = Trigger(LineLocation(BASE, fi.get(at_, fi['work']), Location.Position.CAPTURE), [act])
             triggers.append(trig)
             tpdefs[tid] = (k, fi)
             if 'capture' in k:
@@ -182,6 +205,14 @@ class C15(Prop):
         if len(spanps) > 1:
             out.cls('several_span_processors')
         push = lab.RecPush()
+        old_reclimit = sys.getrecursionlimit()
+        if recipe.get('reclimit') == 'tight':
+            # an application that runs with a recursion limit just above what it needs (set before the agent starts)
+            here, f = 0, sys._getframe()
+            while f is not None:
+                here, f = here + 1, f.f_back
+            sys.setrecursionlimit(max(here + 60, max(a for _, a in recipe['threads']) + 120))
+            out.cls('tight_recursion_limit')
         handler, cfg, _ = lab.make_handler(triggers, plugins=spanps, push=push)
         # ---- timeline ---------------------------------------------------------------------------------------
         cur = {}                 # thread name -> current Event
@@ -283,6 +314,7 @@ class C15(Prop):
                 run_thread(*later_threads.pop(0))
         finally:
             threading.settrace(old)
+            sys.setrecursionlimit(old_reclimit)
         # ---- classes ----------------------------------------------------------------------------------------
         if len(recipe['threads']) >= 2:
             out.cls('several_threads')
@@ -400,7 +432,8 @@ class C15(Prop):
                 continue
             want_event = 'call' if kind == 'method_capture' else 'line'
             hits = [e for e in ip.events if e.base == BASE and e.event == want_event and e.func == fi['name'] and
-                    (kind == 'method_capture' or e.line == fi[recipe['tps'][int(tid[2:])].get('at') or 'work']) and
+                    (kind == 'method_capture' or
+                     e.line == fi.get(recipe['tps'][int(tid[2:])].get('at') or 'work', fi['work'])) and
                     (not reconf_at or e.idx < reconf_at[0])]
             tp = [t for t in recipe['tps'] if True]
             fc = int(recipe['tps'][int(tid[2:])]['fire_count'])
